@@ -29,6 +29,9 @@ class N(HasTraits):
     anykids = List(Instance(HasTraits))
     tkids = List(Instance("N"), tracked=True)  # matched by the metadata filter "+tracked"
     tchild = Instance("N", tracked2=True)      # matched by "+tracked2"
+    tv_a = Int(0, mtag=True)                   # final attributes selected by metadata ("+mtag"): defined and true,
+    tv_f = Int(0, mtag=False)                  # defined but false (still defined: selected),
+    tv_n = Int(0)                              # not defined (not selected)
 
     eqkey = Str("")                # nodes with the same non-empty key compare EQUAL (value-based __eq__, identity-based hash)
 
